@@ -129,6 +129,10 @@ type c18Case struct {
 	// PodGroup without sub-groups or without labels that leave the store unchanged are the known defect documented in
 	// NOTES.md (finding-noop-update.json, Strict=true) and are counted instead (note "known-noop-update-writes").
 	Strict bool `json:"strict"`
+	// Hetero = sibling pods carry different scheduling labels (e.g. master and worker templates differ). This is outside
+	// the property's domain ("depend only on the owner chain and pod template"); such cases are run for the record only:
+	// their outcome is counted under notes "observation-hetero-*" and never reported as a violation.
+	Hetero bool `json:"hetero,omitempty"`
 }
 
 // ---------------------------------------------------------------------------------------------
@@ -893,7 +897,7 @@ func c18Record(c *c18Case, f c18Facts) {
 }
 
 func TestCheckPodGrouper(t *testing.T) {
-	kit.Run(t, kit.Budget{Quick: 40000, Thorough: 800000}, func(t *rapid.T) {
+	kit.Run(t, kit.Budget{Quick: 24000, Thorough: 800000}, func(t *rapid.T) {
 		c := c18GenCase(t)
 		c.Strict = os.Getenv("VERIF_C18_STRICT") != ""
 		sig, msg, f, trace := c18Judge(c)
@@ -901,6 +905,14 @@ func TestCheckPodGrouper(t *testing.T) {
 			kit.Inconclusive()
 			kit.Note("harness-error", 1)
 			t.Fatalf("harness error: %s", msg)
+		}
+		if c.Hetero {
+			kit.Note("observation-hetero-cases", 1)
+			if sig != "" {
+				kit.Note("observation-hetero-"+sig, 1)
+			}
+			kit.Class("hetero-templates(observation-only)")
+			return
 		}
 		c18Record(c, f)
 		if f.knownNoop > 0 {
